@@ -13,7 +13,7 @@ import traceback
 from .base import HarnessError, jdump, setup_import_path
 
 _ready = False
-CHILD_TIMEOUT = int(os.environ.get("VERIF_CHILD_TIMEOUT", "120"))
+CHILD_TIMEOUT = int(os.environ.get("VERIF_CHILD_TIMEOUT", "300"))   # per forked child; runs take < 10 s on an idle machine
 
 
 def zygote_init():
